@@ -83,7 +83,7 @@ class RotXInstruction(core.RotationInstruction):
 
     def to_matrix(self) -> np.ndarray:
         axis = [1, 0, 0]
-        angle = self.angle_num.value * np.pi / 2**self.angle_denom.value
+        angle = self.angle
         return get_rotation_matrix(axis, angle)
 
 
@@ -94,7 +94,7 @@ class RotYInstruction(core.RotationInstruction):
 
     def to_matrix(self) -> np.ndarray:
         axis = [0, 1, 0]
-        angle = self.angle_num.value * np.pi / 2**self.angle_denom.value
+        angle = self.angle
         return get_rotation_matrix(axis, angle)
 
 
@@ -105,7 +105,7 @@ class RotZInstruction(core.RotationInstruction):
 
     def to_matrix(self) -> np.ndarray:
         axis = [0, 0, 1]
-        angle = self.angle_num.value * np.pi / 2**self.angle_denom.value
+        angle = self.angle
         return get_rotation_matrix(axis, angle)
 
 
